@@ -16,11 +16,11 @@ def _load_evidence(prop):
         return json.load(f)
 
 
-def _merge_evidence(prop, tier, ev1, ev2):
+def _merge_evidence(prop, tier, ev1, ev2, names=("API level", "CLI level")):
     c1, c2 = ev1["coverage"], ev2["coverage"]
     cov = {k: c1[k] + c2[k] for k in ("states", "transitions", "traces_validated_against_impl", "evaluations", "distinct_nontrivial")}
     cov["samples"] = c1["samples"][:1] + c2["samples"][:1]
-    cov["rule"] = "API level: " + c1["rule"] + " || CLI level: " + c2["rule"]
+    cov["rule"] = names[0] + ": " + c1["rule"] + " || " + names[1] + ": " + c2["rule"]
     cov["exhaustive"] = bool(c1.get("exhaustive") and c2.get("exhaustive"))
     cov["api_level"] = {k: v for k, v in c1.items() if k not in ("samples", "rule")}
     cov["cli_level"] = {k: v for k, v in c2.items() if k not in ("samples", "rule")}
@@ -34,8 +34,28 @@ def main():
     ap.add_argument("--tier", default=os.environ.get("VERIF_TIER", "quick"), choices=["quick", "thorough"])
     ap.add_argument("--replay")
     a = ap.parse_args()
+    if not a.replay:
+        common.clear_replays(a.prop)      # replay files of earlier runs of this check (this run writes the ones that apply to it)
     try:
-        if a.prop in LEDGER:
+        if a.prop in ("C05", "C06", "C07"):
+            # ledger level (compute_tax) and document level (the tables of the written reports that carry the same figures)
+            from . import docs_main, ledger_main
+
+            if a.replay:
+                import json
+
+                with open(a.replay, encoding="utf-8") as f:
+                    rep = json.load(f)
+                is_doc = isinstance(rep.get("meta"), dict) and isinstance(rep["meta"].get("job"), dict) and rep["meta"]["job"].get("kind") == "cli"
+                rc = docs_main.replay(a.prop, a.replay) if is_doc else ledger_main.replay(a.prop, a.replay)
+            else:
+                rc1 = ledger_main.run(a.prop, a.tier)
+                ev1 = _load_evidence(a.prop)
+                rc2 = docs_main.run(a.prop, a.tier, keep_replays=True)
+                ev2 = _load_evidence(a.prop)
+                _merge_evidence(a.prop, a.tier, ev1, ev2, ("API level (compute_tax)", "document level (written reports)"))
+                rc = max(rc1, rc2)
+        elif a.prop in LEDGER:
             from . import ledger_main
 
             rc = ledger_main.replay(a.prop, a.replay) if a.replay else ledger_main.run(a.prop, a.tier)
